@@ -221,6 +221,9 @@ def _label_finder(
     if n_node < 8 or exhaustive:
         perm = list(permutations([*range(n_node)]))
         initial_perm = np.array([[*range(n_node)]])
+        if n_label == 1:
+            # only the identity is needed (the only case possible for a one-vertex graph)
+            return initial_perm
         labels_list = rng.choice(perm[1:], n_label - 1)
         labels_list = np.concatenate((initial_perm, labels_list), axis=0)
         return labels_list
